@@ -31,7 +31,7 @@ pub fn units(tier: &str, _seed: u64) -> Vec<String> {
             // rewritings that re-associate a three-term float sum (whole-building totals over carriers, averaged
             // export factors over sources) need a tolerance proof that no back end delivers (DESIGN.md 2.4):
             // they are explored in the thorough tier, where they are reported INCONCLUSIVE unless violated
-            let hard = (s.contains("1/X") && (r == "rev" || r == "swap:5" || r == "split:1" || r == "split:0" || r == "split:3" || r == "split:4")) || (s.contains("EL_COGEN") && (r == "rev" || r == "ord:rev" || r == "swap:1"));
+            let hard = (s.contains("1/X") && (r == "rev" || r == "swap:5" || r == "split:1" || r == "split:0" || r == "split:3" || r == "split:4")) || (s.contains("EL_COGEN") && (r == "rev" || r == "swap:1"));
             if hard && tier != "thorough" {
                 continue;
             }
